@@ -16,21 +16,24 @@
    so one run reports every failing scenario.                                                                        *)
 EXTENDS StoreAbs, StoreKeys, TraceLib
 
-VARIABLES l, configs, cur, bad
+VARIABLES l, configs, cur, bad, strictio
 
 Idle == [t \in Threads |-> NoOp]
 
-TraceInit == l = 1 /\ configs = {InitConfig(0)} /\ cur = Idle /\ bad = FALSE
+TraceInit == l = 1 /\ configs = {InitConfig(0)} /\ cur = Idle /\ bad = FALSE /\ strictio = FALSE
 
 Reject(r) ==
     /\ PrintT(<<"REJECT", ToJson([line |-> l, strict |-> Strict, rec |-> r])>>)
     /\ bad' = TRUE
-    /\ UNCHANGED <<configs, cur>>
+    /\ UNCHANGED <<configs, cur, strictio>>
 
-Keep == UNCHANGED <<configs, cur, bad>>
+Keep == UNCHANGED <<configs, cur, bad, strictio>>
 
 Consume(r) ==
-    IF r.ev = "reset" THEN configs' = {InitConfig(r.init)} /\ cur' = Idle /\ bad' = FALSE
+    \* "nofault":1 on a reset: nothing in this scenario injects an I/O failure or a crash, so no operation may answer "err"
+    \* (every stored object reads back, whatever its payload)
+    IF r.ev = "reset" THEN /\ configs' = {InitConfig(r.init)} /\ cur' = Idle /\ bad' = FALSE
+                           /\ strictio' = ("nofault" \in DOMAIN r /\ r.nofault = 1)
     ELSE IF r.ev = "tree" THEN IF TreeOk(r.outside) THEN Keep ELSE Reject(r)
     ELSE IF r.ev = "key" THEN
         IF KeyRecOk(r.key, r.valid, r.put, r.get, r.listed, r.files, r.outside) THEN Keep ELSE Reject(r)
@@ -40,15 +43,15 @@ Consume(r) ==
         THEN LET o == [kind |-> r.kind, obj |-> r.obj] IN
              /\ configs' = AfterInvoke(configs, cur, r.t, o)
              /\ cur' = [cur EXCEPT ![r.t] = o]
-             /\ bad' = FALSE
+             /\ bad' = FALSE /\ UNCHANGED strictio
         ELSE Reject(r)
     ELSE IF r.ev = "res" THEN
         LET n == AfterRespond(configs, r.t, Res(r.r, r.obj), r.junk) IN
-        IF n # {} THEN configs' = n /\ UNCHANGED <<cur, bad>> ELSE Reject(r)
-    ELSE IF r.ev = "crash" THEN configs' = AfterCrash(configs, r.t) /\ UNCHANGED <<cur, bad>>
+        IF n # {} /\ ~(strictio /\ r.r = "err") THEN configs' = n /\ UNCHANGED <<cur, bad, strictio>> ELSE Reject(r)
+    ELSE IF r.ev = "crash" THEN configs' = AfterCrash(configs, r.t) /\ UNCHANGED <<cur, bad, strictio>>
     ELSE Reject(r)
 
 TraceNext == l <= NRec /\ Consume(Rec[l]) /\ l' = l + 1
 
-TraceSpec == TraceInit /\ [][TraceNext]_<<l, configs, cur, bad>>
+TraceSpec == TraceInit /\ [][TraceNext]_<<l, configs, cur, bad, strictio>>
 =============================================================================
